@@ -164,6 +164,16 @@ func c01Gen(g *core.Gen, emit func(*p2Case)) {
 			}
 		}
 	}
+	// right after a Verify / Repair (in this process, no Create in between) of a copy of the set in which a recovery
+	// packet fails its hash, or whose index is cut short: what a rejected packet leaves behind must not reach the next call
+	for pb := 1; pb <= 3; pb++ {
+		pcfg := scen.P2Config{Sizes: []int{11, 6}, Slice: 4, Blocks: 3, Class: "uniq"}
+		for _, m := range append([]scen.Dmg{{Op: "none"}}, scen.DataMenu(pcfg.Sizes, pcfg.Slice, nRecFiles(pcfg.Blocks), false)...) {
+			c := mk(pcfg, 1)([]scen.Dmg{m})
+			c.PriorBad = pb
+			g.Emit(c)
+		}
+	}
 	dup := scen.P2Config{Sizes: []int{9, 9}, Slice: 4, Blocks: 3, Class: "uniq", DupFile: true}
 	genP2Deviations(g, dup, true, 1, mk(dup, 1))
 	coll := scen.P2Config{Sizes: []int{27, 20}, Slice: 8, Blocks: 3, Class: "crccollide"}
